@@ -14,6 +14,7 @@ import (
 	"math/rand/v2"
 	"reflect"
 	"runtime"
+	"runtime/debug"
 	"testing"
 
 	"github.com/jech/storrent/protocol"
@@ -116,6 +117,9 @@ func oneX(c *vk.C, d *desc, frame []byte, appendS, expectS bool) {
 		}
 		bound := int64(allocMul)*(int64(min64(int64(L), frameCap))+4) + allocC0
 		c.R.Max("max:alloc_bytes_one_call", alloc)
+		if alloc > 32<<20 {
+			debug.FreeOSMemory() // give an attacker-sized buffer back before the next case
+		}
 		if alloc > bound {
 			c.Violation("alloc-bound", "alloc-bound "+cls+" "+allocClass(d), fmt.Sprintf("allocated %d bytes decoding a frame of announced length %d (given %d payload bytes); bound %d", alloc, L, d.Given, bound), rep)
 		}
@@ -527,7 +531,9 @@ func hostileBencode(rng *rand.Rand, sub int) ([]byte, string) {
 		}
 	case "strlen>frame":
 		k := vk.Pick(rng, keys)
-		n := []int64{100, 1 << 16, 1 << 20, 1 << 24, 1 << 30, 1<<31 - 1, 1 << 31, 1 << 40, 1<<63 - 1}[rng.IntN(9)]
+		// lengths a decoder could try to allocate stop at 1 GiB: sixteen children each zeroing 2 GiB strings got the
+		// whole machine's OOM killer involved; beyond that only lengths no allocator accepts
+		n := []int64{100, 1 << 16, 1 << 20, 1 << 24, 1 << 28, 1 << 30, 1 << 40, 1 << 62, 1<<63 - 1}[rng.IntN(9)]
 		fmt.Fprintf(&b, "d%s%d:abce", bstr(k), n)
 	case "int-boundary":
 		b.WriteString("d")
